@@ -6,6 +6,7 @@ use crate::{
     schema::Schema,
     sql::{
         binder::bounds::{AggregateFunction, BoundExpression},
+        parser::ast::BinaryOperator,
         planner::{logical::AggregateExpr, physical::HashAggregateOp},
     },
     storage::tuple::Row,
@@ -37,6 +38,17 @@ impl Accumulator {
         }
     }
 
+    /// Running sum: integers are added exactly and an overflow is an error (the primitive `+` panics in
+    /// debug builds and wraps in release builds), everything else goes through the promoted addition.
+    fn checked_sum(current: &DataType, value: &DataType) -> RuntimeResult<DataType> {
+        match ExpressionEvaluator::integer_arith(current, value, BinaryOperator::Plus) {
+            Some(result) => Ok(result?),
+            None => current
+                .add(value)
+                .map_err(|e| RuntimeError::Other(format!("Sum error: {}", e))),
+        }
+    }
+
     /// Accumulate a new value into the aggregate state.
     fn accumulate(&mut self, value: &DataType) -> RuntimeResult<()> {
         // Skip NULL values for most aggregates except COUNT
@@ -51,17 +63,13 @@ impl Accumulator {
             Accumulator::Sum { sum } => {
                 *sum = Some(match sum.take() {
                     None => value.clone(),
-                    Some(current) => current
-                        .add(&value)
-                        .map_err(|e| RuntimeError::Other(format!("Sum error: {}", e)))?,
+                    Some(current) => Self::checked_sum(&current, value)?,
                 });
             }
             Accumulator::Avg { sum, count } => {
                 *sum = Some(match sum.take() {
                     None => value.clone(),
-                    Some(current) => current
-                        .add(&value)
-                        .map_err(|e| RuntimeError::Other(format!("Sum error: {}", e)))?,
+                    Some(current) => Self::checked_sum(&current, value)?,
                 });
                 *count += 1;
             }
